@@ -13,7 +13,8 @@ META = {
                  "httputil.Wrap / LogMiddleware; free-running -race stress trace-validated by TLC",
     "level_text": "TLC checks the step-by-step model of Wrap's reverse loop against the visit-order property for every "
                   "middleware list up to the bound (pass / short-circuit / pre+post / ServerHeaderMiddleware, nested "
-                  "Wrap calls, PlainTextHandler), and the model of LogMiddleware.Wrap written statement by statement "
+                  "Wrap calls on overlapping sub-slices of ONE caller-owned array with spare capacity, repeated rounds "
+                  "over the same array which Wrap must leave intact, PlainTextHandler), and the model of LogMiddleware.Wrap written statement by statement "
                   "(three pools as sets of object ids, Get = any free or new object, objects keep stale contents) for "
                   "2 and 3 concurrent requests and all interleavings: pool-object ownership, the inner handler sees "
                   "its own request / logger attributes / client writer at every step, the finished code is the "
@@ -42,6 +43,16 @@ NEGATIVE = [
     ("noCodeReset", "FinishedCode"),
     ("noImplicit", "FinishedCode"),
 ]
+
+# Wrap design mutation -> an invariant it must break
+CHAIN_NEGATIVE = [
+    ("forward", "VisitOrder"),
+    ("reverseInPlace", "VisitOrder"),      # only wrong from the second Wrap over the same slice on
+    ("appendInPlace", "CallerListIntact"),
+]
+
+CODES_Q = "{101, 103, 200, 404}"
+CODES_T = "{100, 101, 200, 204, 304, 404, 599, 999}"
 
 GATES_LIFE = '{"started", "hpre", "hpost", "readcode"}'
 GATES_POOL = '{"withattrs", "started", "readcode", "finished"}'
@@ -135,6 +146,8 @@ def _run(ctx):
         "passed and the status its client got are accepted (the code as written records the last one)",
         "request ids are embedded in method-independent fields (URL, host, RemoteAddr, headers, body, context)",
         "handlers that panic are out of scope of the statement",
+        "1xx codes other than 101 are informational (net/http): WriteHeader(103) alone may be logged as 103 or as 200; "
+        "101 is a final status and must be logged as 101",
         "ownership of the three pooled objects is taken to last, as written, from their Get until the finished "
         "record has been handed to the base handler (the event log marks the release there, before the real Puts)",
     ]
@@ -149,14 +162,17 @@ def _run(ctx):
     jobs.add("build-race", lambda: ctx.build_vh(True))
 
     # ---- 1. model checking of the designs
-    maxn = 4 if q else 5
-    chain_c = {"MaxN": maxn, "Kinds": '{"pass", "short", "prepost", "srvhdr"}', "HKinds": '{"rec", "plain"}',
-               "Reverse": "FALSE"}
-    write_cfg(d / "MwChainMC_run.cfg", "Spec", chain_c, invariants=["TypeOK", "VisitOrder", "AtMostOnce", "ClosedForm"])
-    jobs.add("chain-mc", tlc("MwChain", "MwChainMC_run.cfg", "chain-mc"))
-    write_cfg(d / "MwChainNeg_run.cfg", "Spec", dict(chain_c, MaxN=3, Reverse="TRUE"), invariants=["VisitOrder"])
-    jobs.add("chain-neg", tlc("MwChain", "MwChainNeg_run.cfg", "chain-neg:reverse-loop", expect_ok=False, workers=2))
-    write_cfg(d / "CodeRecMC_run.cfg", "Spec", {"MaxSteps": 7 if q else 8, "Codes": "{200, 404, 500}"},
+    # Wrap: one run is both the exhaustive check and the generator (MwChainGen = MwChain + Emit).
+    chain_c = {"MaxN": 4 if q else 5, "Kinds": '{"pass", "short", "prepost", "srvhdr"}', "HKinds": '{"rec", "plain"}',
+               "Spares": "{0, 2}", "MaxOverlap": 1, "Rounds": 2 if q else 3, "Variant": '"asWritten"'}
+    write_cfg(d / "MwChainGen_run.cfg", "Spec", chain_c,
+              invariants=["Emit", "TypeOK", "VisitOrder", "CallerListIntact", "AtMostOnce", "ClosedForm"])
+    jobs.add("chain-gen", tlc("MwChainGen", "MwChainGen_run.cfg", "chain-mc+gen", timeout=1500))
+    for variant, inv in CHAIN_NEGATIVE:
+        cfg = "MwChainNeg_%s.cfg" % variant
+        write_cfg(d / cfg, "Spec", dict(chain_c, MaxN=3, Rounds=2, Variant='"%s"' % variant), invariants=[inv])
+        jobs.add("chain-neg-" + variant, tlc("MwChain", cfg, "chain-neg:" + variant, expect_ok=False, workers=2))
+    write_cfg(d / "CodeRecMC_run.cfg", "Spec", {"MaxSteps": 6 if q else 7, "Codes": CODES_Q},
               invariants=["CodeOK", "LastWins"])
     jobs.add("coderec-mc", tlc("CodeRec", "CodeRecMC_run.cfg", "coderec-mc"))
 
@@ -164,6 +180,9 @@ def _run(ctx):
         cfg = "LogMwMC2_%s.cfg" % ("retain" if retain else "copy")
         write_cfg(d / cfg, "Spec", _consts(2, "MCAll", retain=retain), invariants=ALL_INV, view="View")
         jobs.add("logmw-mc2-%s" % retain, tlc("LogMwMC", cfg, "logmw-mc: 2 requests, 49 behaviour pairs, retain=%s" % retain))
+    write_cfg(d / "LogMwMC2_classes.cfg", "Spec", _consts(2, "MCClasses"), invariants=ALL_INV, view="View")
+    jobs.add("logmw-mc2-classes", tlc("LogMwMC", "LogMwMC2_classes.cfg",
+                                      "logmw-mc: 2 requests, 49 pairs of status-class behaviours (101, 1xx, 204, 304, 599, 999)"))
     # three requests: each pool in turn with sync.Pool's full nondeterminism, the other two ideal ("own");
     # thorough adds the joint model of all three pools for one behaviour triple.
     for k, pool in enumerate(("attr", "req", "rw")):
@@ -185,9 +204,7 @@ def _run(ctx):
         jobs.add("neg-" + variant, tlc("LogMwMC", cfg, "logmw-neg:" + variant, expect_ok=False, workers=2))
 
     # ---- 2. generators
-    write_cfg(d / "MwChainGen_run.cfg", "Spec", chain_c, invariants=["Emit", "VisitOrder", "ClosedForm"])
-    jobs.add("chain-gen", tlc("MwChainGen", "MwChainGen_run.cfg", "chain-gen"))
-    write_cfg(d / "CodeRecGen_run.cfg", "GSpec", {"MaxSteps": 5 if q else 6, "Codes": "{200, 404, 500}"},
+    write_cfg(d / "CodeRecGen_run.cfg", "GSpec", {"MaxSteps": 5, "Codes": CODES_Q if q else CODES_T},
               invariants=["Emit", "CodeOK", "LastWins"])
     jobs.add("coderec-gen", tlc("CodeRecGen", "CodeRecGen_run.cfg", "coderec-gen"))
 
@@ -213,7 +230,8 @@ def _run(ctx):
 
     sched_gen("life2", 2, "GenAll", GATES_LIFE)
     sched_gen("pool2", 2, "GenSome" if q else "GenAll", GATES_POOL, retain=False)
-    sched_gen("fine2", 2, "GenAll", GATES_ALL, simulate=2000 if q else 20000)
+    sched_gen("classes2", 2, "GenClasses", GATES_COARSE if q else GATES_LIFE)
+    sched_gen("fine2", 2, "GenEvery", GATES_ALL, simulate=2000 if q else 20000)
     if q:
         sched_gen("coarse3", 3, "GenSome", GATES_COARSE, simulate=1500)
     else:
@@ -228,9 +246,11 @@ def _run(ctx):
             ctx.transitions += r.generated
     # negative runs must each find their violation: otherwise the invariants (or the model) are vacuous
     neg_ok = []
-    if res["chain-neg"].violated != "VisitOrder":
-        raise CheckerError("MwChain with the loop of Wrap reversed does not violate VisitOrder (%s)" % res["chain-neg"].violated)
-    neg_ok.append("MwChain/reverse-loop -> VisitOrder")
+    for variant, inv in CHAIN_NEGATIVE:
+        r = res["chain-neg-" + variant]
+        if r.violated != inv:
+            raise CheckerError("MwChain design mutation %s does not violate %s (got %s)" % (variant, inv, r.violated))
+        neg_ok.append("MwChain/%s -> %s" % (variant, inv))
     for variant, inv in NEGATIVE:
         r = res["neg-" + variant]
         if r.violated != inv:
@@ -251,6 +271,7 @@ def _run(ctx):
     ctx.distinct += s1["distinct_nontrivial"] + s2["distinct_nontrivial"]
     ctx.traces += s1["replayed"] + s2["replayed"] + s3["chains"] - 1
     ctx.extra["middleware_lists_replayed"] = s1["replayed"]
+    ctx.extra["wrap_calls_over_shared_slices"] = s1["wrap_calls"]
     ctx.extra["coderecorder_call_sequences_replayed"] = s2["replayed"]
     policy = s2.get("code_policy_differs", 0)
     diverge = 0
